@@ -85,7 +85,7 @@ func e3C03Config(rng *mrand.Rand, quick bool, i int) e3Config {
 	}
 	if cfg.WantByz && rng.IntN(2) == 0 {
 		cfg.Attack = true
-		cfg.AttackKind = rng.IntN(3)
+		cfg.AttackKind = rng.IntN(4)
 	}
 	// every eighth run each is given to one of the directed attacks, whatever was drawn
 	switch i % 8 {
@@ -95,6 +95,10 @@ func e3C03Config(rng *mrand.Rand, quick bool, i int) e3Config {
 		cfg.WantByz, cfg.Rotate, cfg.Attack, cfg.AttackKind = true, true, true, 2
 	case 7:
 		cfg.WantByz, cfg.Attack, cfg.AttackKind = true, true, 0
+	case 2:
+		cfg.WantByz, cfg.Rotate, cfg.Attack, cfg.AttackKind = true, true, true, 2
+	case 3:
+		cfg.WantByz, cfg.Attack, cfg.AttackKind = true, true, 3
 	}
 	if f := os.Getenv("VERIF_E3_FORCE"); f != "" {
 		// debugging aid: VERIF_E3_FORCE=kind=<0|1|2> makes every run a rotating world with
